@@ -84,6 +84,14 @@ def fragment_cards(shape):
 
 
 def rt_cards(shape, cards) -> bool:
+    r = cards_doc(shape, cards)
+    if r is None:
+        return False
+    m, m2, whole_ok = r
+    return whole_ok and afmio.same(m, m2)
+
+
+def cards_doc(shape, cards):
     """group cardinalities symbolic: writer leaf -> INT tokens of the real parse tree -> reader."""
     n = R.n_features(shape)
     rels = R.relations_of(shape)
@@ -107,7 +115,7 @@ def rt_cards(shape, cards) -> bool:
             elif same_s(pieces[ri], '[' + names[cs[0]] + ']'):
                 tcards.append((0, 1))
             else:
-                return False
+                return None
         else:
             tcards.append((40 + ri, 60 + ri))
     with NoTracing():
@@ -129,9 +137,7 @@ def rt_cards(shape, cards) -> bool:
             expected = expected[:i] + '[' + str(a) + ',' + str(b) + ']' + expected[i + len('[%d,%d]' % (40 + ri, 60 + ri)):]
     m2 = reader_on(tree).transform()
     whole = AFMWriter(None, m).transform()
-    if not same_s(whole, expected):
-        return False
-    return afmio.same(m, m2)
+    return m, m2, same_s(whole, expected)
 
 
 def rt_name(shape, pos, name, with_ctc) -> bool:
